@@ -39,7 +39,8 @@ PLAIN = {b[0] for b in BODIES[:18]}
 # local binding situations for the name
 BINDINGS = ["none", "none", "none", "param", "assigned-before", "assigned-after", "rebound-later", "for-target-before",
             "with-target-before", "module-level", "imported", "annassign-before", "augassign-before",
-            "module-level-below", "imported-below", "helper-def-below", "class-below"]
+            "module-level-below", "imported-below", "helper-def-below", "class-below",
+            "unpack-before", "nested-unpack-before", "for-nested-before", "with-nested-before", "list-unpack-before"]
 SHAPES = ["noparams", "one", "many", "default", "annotated", "return-ann", "multiline", "multiline-trailing", "method",
           "async", "decorated", "one-line-body", "fixture", "spaces"]
 
@@ -94,6 +95,11 @@ def build(rng, shape, body, binding, name):
     if binding == "for-target-before": pre = [f"for {name} in range(2):", "    pass"]
     if binding == "with-target-before": pre = [f"with open('x') as {name}:", "    pass"]
     if binding == "annassign-before": pre = [f"{name}: int = 1"]
+    if binding == "unpack-before": pre = [f"a0, {name} = 1, 2"]
+    if binding == "nested-unpack-before": pre = [f"(a0, ({name}, c0)), r0 = (1, (2, 3)), 4"]
+    if binding == "for-nested-before": pre = [f"for i0, ({name}, v0) in [(1, (2, 3))]:", "    pass"]
+    if binding == "with-nested-before": pre = [f"with open('x') as (h0, ({name}, z0)):", "    pass"]
+    if binding == "list-unpack-before": pre = [f"[a0, [{name}, c0]] = [1, [2, 3]]"]
     if binding == "augassign-before": pre = ["z = 0", f"{name} = 0", f"{name} += 1"]
     stm = [s.replace("{N}", name) if "{{" not in s else s.format(N=name) for s in body[1]]
     if body[0] == "await" and shape != "async":
